@@ -14,16 +14,17 @@ RFC = "names/_rfc1982.py"
 Q = "twisted.names._rfc1982.SerialNumber"
 TECHNIQUE = "exhaustive evaluation over small rings justified by a structural width-uniformity check"
 EXPLANATION = (
-    'SerialNumber.__init__/_convertOther/__eq__/__lt__/__gt__/__le__/__ge__/__add__ are read from the AST and '
-    'evaluated by a small whitelisted interpreter (integers and floats, attribute reads, and/or/not, comparisons, try/except, '
-    'calls inside the class) - never by importing twisted. Every comparison is evaluated for all pairs of widths 1..5 '
-    '(1..7 in the thorough tier) and for boundary representatives (|a-b| in {0,1,2,H-2..H+2,M-2,M-1}) of widths up to '
-    '128 (53..56 included, where float rounding starts), so each cell of sign(a-b) x cmp(|a-b|, halfRing) is hit, and compared with RFC 1982 3.2 written '
-    'independently as d=(b-a) mod 2^bits: lt iff 0<d<H, gt iff d>H, eq iff d=0 (both false at d=H), le/ge = eq or '
-    'lt/gt. __add__ is evaluated likewise: n <= 2^(bits-1)-1 gives (s+n) mod 2^bits in the same width and compares '
-    'greater for n>0, larger n raises ArithmeticError. Operands of another width or type are refused, the ring '
-    'constants are checked for widths 1..64/96/128 (n = 2^(bits-1)-1 and 2^(bits-1) exactly), and the five fields are written only in __init__. Not decided: the RFC '
-    '4034 date-string helpers.'
+    'STRUCTURAL: the width enters __init__ only as the exponent of a power of two, and '
+    '__eq__/__lt__/__gt__/__le__/__ge__/__add__ (with the module-level helpers they call) combine the numbers only by +, -, '
+    '% and order/equality comparisons in integer arithmetic (rule width-uniform); the five fields are written only in '
+    '__init__; the base class adds no comparison behaviour. FINITE-EXHAUSTIVE under that argument: every comparison is then '
+    'a Boolean combination of atoms +-(a-b) [mod M] ~ 0|H|M, constant on the cells sign(a-b) x cmp(|a-b|, halfRing), all of '
+    'which are inhabited from width 3 on, so evaluating ALL pairs of widths 1..5 (1..7 thorough) against RFC 1982 3.2 '
+    'written as d=(b-a) mod 2^bits decides every width; likewise __add__ (value, same width, greater for n>0, '
+    'ArithmeticError beyond 2^(bits-1)-1). When the argument cannot be established (e.g. true division) the same rules are '
+    "emitted as '-sampled' = bounded. BOUNDED: ring constants for widths 1..64/96/128, boundary representatives of widths "
+    'up to 128 (n = 2^(bits-1)-1 and 2^(bits-1) exactly; this is what exposes float rounding from 55 bits on), refusal of '
+    'other widths/types. Not decided: the RFC 4034 date-string helpers.'
 )
 RULE_KINDS = {
     "rfc1982/base-is-inert": "structural",
